@@ -25,6 +25,10 @@ macro_rules! sess_h {
         #[kani::stub(alloc::fmt::format, fmt_stub)]
         #[kani::stub(std::hash::RandomState::new, std_rs_new)]
         #[kani::stub(ahash::RandomState::new, ahash_rs_new)]
+        #[kani::stub(dashmap::RawRwLock::lock_exclusive_slow, dm_lock_excl_slow)]
+        #[kani::stub(dashmap::RawRwLock::unlock_exclusive_slow, dm_unlock_excl_slow)]
+        #[kani::stub(dashmap::RawRwLock::lock_shared_slow, dm_lock_shared_slow)]
+        #[kani::stub(dashmap::RawRwLock::unlock_shared_slow, dm_unlock_shared_slow)]
         fn $name() $body
     };
 }
@@ -81,7 +85,8 @@ sess_h!(kf_c01_dirty_read_uncommitted_node_still_fails, {
 });
 
 //@ property: C02
-//@ tier: quick
+//@ tier: thorough
+//@ optional: yes
 //@ cap_s: 900
 //@ mem_gb: 12
 //@ stubs: parking_lot slow paths, alloc::fmt::format, RandomState::new
